@@ -38,8 +38,8 @@ ASSUMPTIONS = [
     "non-degenerate (min |eigenvalue| >= 1e-3), hyperbolic_rep only for signature (n-1, 1) - "
     "the domain its docstring states",
     "a diagram lists every pair of generators (the constructor raises KeyError otherwise)",
-    "Cartan parameters are only expected to be honoured on infinite edges written as a negative "
-    "label (see the report: cartan_matrix ignores parameters on edges written as 0)",
+    "Cartan parameters are honoured on infinite edges written as 0 or as a negative label "
+    "alike (cartan_matrix used to ignore the 0-coded ones: repaired, regression kept)",
     "float64 only (Sage exact back end not installed)",
 ]
 
@@ -456,23 +456,21 @@ def body_cartan(case, ctx):
     for p in case["params"]:
         i, j = p["i"], p["j"]
         if M[i][j] == 0:
-            # cartan_matrix only looks at negative labels: parameters on an infinite edge
-            # written as 0 are ignored (reported; not part of the property statement)
-            ctx.label("excluded:cartan-parameter-on-0-coded-infinity")
-            honoured = False
-            compare[i, j] = compare[j, i] = False
+            # an infinite edge written as 0 (the constructor documents 0 and negative alike;
+            # cartan_matrix used to look at negative labels only - repaired, now asserted)
+            ctx.label("cartan-parameter-on-0-coded-infinity")
         li, lj = idx[i], idx[j]
         pdict[(li, lj)] = p["u"]
         pmat[li, lj] = p["u"]
         if p["v"] is None:
             ctx.label("param=symmetric")
-            if M[i][j] < 0:
+            if M[i][j] <= 0:
                 want[i, j] = want[j, i] = p["u"]
         else:
             ctx.label("param=asymmetric")
             pdict[(lj, li)] = p["v"]
             pmat[lj, li] = p["v"]
-            if M[i][j] < 0:
+            if M[i][j] <= 0:
                 want[i, j], want[j, i] = p["u"], p["v"]
     if not case["params"]:
         ctx.label("param=none")
